@@ -117,12 +117,13 @@ def fam_kernel(E, names, fault_kinds, nops=1, pmax=2, real=False, placements=Tru
             E.prove(log.has('v%d' % k, 'end'), 'op-completes-when-undisturbed', ('%s', name))
 
 
-ALLF = [Fault.NONE, Fault.CANCEL, DOUBLE, Fault.INTERRUPT, Fault.CLOSE, Fault.CANCEL_CLOSE]
+ALLF = [Fault.NONE, Fault.CANCEL, DOUBLE, Fault.INTERRUPT, Fault.CLOSE, Fault.CANCEL_CLOSE,
+        Fault.CLOSE_UNTIL]
 FAMILIES = [
     Family('one_op', fam_kernel,
            quick=dict(names=OPS, fault_kinds=ALLF, nops=1, pmax=2),
            thorough=dict(names=OPS, fault_kinds=ALLF, nops=1, pmax=3),
-           reach=OPS + ['none', 'cancel', 'interrupt', 'close', 'cancel+close'],
+           reach=OPS + ['none', 'cancel', 'interrupt', 'close', 'cancel+close', 'close by until'],
            bounds='one op, all attackers'),
     Family('rare_ops', fam_kernel,
            quick=dict(names=RARE, fault_kinds=[Fault.NONE, Fault.CANCEL, Fault.CLOSE], nops=1,
